@@ -36,7 +36,8 @@ func runC19(c *kernel.Ctx) {
 	// the flush of a peer queue runs on a timer goroutine: it parks at the yield
 	// points inside processSendQueue and the tape decides when it continues, so
 	// that SendTo calls land between its swap and its encode
-	baton := &kernel.Baton{}
+	baton := kernel.NewBaton()
+	baton.OnlySites = []string{"cluster.Peer.processSendQueue:swapped", "cluster.Peer.processSendQueue:chunk"}
 	verifyield.Hook = baton.Hook
 	defer func() { baton.ReleaseAll(); verifyield.Hook = nil }()
 	type rec struct {
